@@ -245,7 +245,8 @@ theorem C14_provider_signs_only_if (H : Bytes → Bytes) (t t' : Ticket) (bid : 
     bid.auctionType = inbound ∧
     t.capacity ≠ 0 ∧ t.capacity % baseUnit = 0 ∧ t.pushAmt ≤ t.capacity ∧
     t.capacity = bid.amt ∧ t.capacity = wrapI64 ((bid.minUnitsMatch : Int) * baseUnit) ∧
-    signOrder H (some t) bid.nonce k = (some t', none) := by
+    signOrder H (some t) bid.nonce k = (some t', none) ∧
+    checkOfferMatchesBid t bid = none := by
   unfold validateAndSign at hok
   by_cases h1 : t.state = stateRegistered
   · simp only [h1, bne_self_eq_false, Bool.false_eq_true, if_false] at hok
@@ -270,6 +271,10 @@ theorem C14_provider_signs_only_if (H : Bytes → Bytes) (t t' : Ticket) (bid : 
               | some e => simp [hc] at hok
               | none =>
                 simp only [hc] at hok
+                cases hmb : checkOfferMatchesBid t bid with
+                | some e => simp [hmb] at hok
+                | none =>
+                simp only [hmb] at hok
                 -- unpack the parameter check
                 unfold checkOfferParamsForOrder at hc
                 by_cases ha : bid.auctionType = inbound
@@ -285,7 +290,7 @@ theorem C14_provider_signs_only_if (H : Bytes → Bytes) (t t' : Ticket) (bid : 
                       · by_cases hpu : t.pushAmt ≤ t.capacity
                         · by_cases hba : t.capacity = bid.amt
                           · by_cases hmu : t.capacity = wrapI64 ((bid.minUnitsMatch : Int) * baseUnit)
-                            · refine ⟨h1, ⟨r, nk, mk, rfl, hnk, hmk⟩, by cases u; rfl, hk, ha, hc0, hcm, hpu, hba, hmu, ?_⟩
+                            · refine ⟨h1, ⟨r, nk, mk, rfl, hnk, hmk⟩, by cases u; rfl, hk, ha, hc0, hcm, hpu, hba, hmu, ?_, rfl⟩
                               cases hso : signOrder H (some t) bid.nonce k with
                               | mk a b =>
                                 cases a with
@@ -313,6 +318,27 @@ theorem C14_provider_signs_only_if (H : Bytes → Bytes) (t t' : Ticket) (bid : 
                 · simp [ha] at hc
             · simp [hk] at hok
   · simp [h1] at hok
+
+/-- …and only if the bid repeats the channel parameters of the offer (`CheckOfferMatchesBid`): lease duration
+(unless the offer leaves it open with 0), push amount = self channel balance, unannounced and zero-conf
+flags. -/
+theorem C14_provider_bid_matches_offer (H : Bytes → Bytes) (t t' : Ticket) (bid : BidTerms) (acctKey k : Key)
+    (hok : validateAndSign H t bid acctKey k = (t', none)) :
+    (t.leaseDuration = 0 ∨ t.leaseDuration = bid.leaseDuration) ∧ t.pushAmt = bid.selfChanBalance ∧
+    t.unannounced = bid.unannounced ∧ t.zeroConf = bid.zeroConf := by
+  have h := (C14_provider_signs_only_if H t t' bid acctKey k hok).2.2.2.2.2.2.2.2.2.2.2
+  unfold checkOfferMatchesBid at h
+  by_cases h1 : t.leaseDuration = 0 ∨ t.leaseDuration = bid.leaseDuration
+  · by_cases h2 : t.pushAmt = bid.selfChanBalance
+    · by_cases h3 : t.unannounced = bid.unannounced
+      · by_cases h4 : t.zeroConf = bid.zeroConf
+        · exact ⟨h1, h2, h3, h4⟩
+        · rcases h1 with h1 | h1 <;> simp [h1, h2, h3, h4] at h
+      · rcases h1 with h1 | h1 <;> simp [h1, h2, h3] at h
+    · rcases h1 with h1 | h1 <;> simp [h1, h2] at h
+  · have a : ¬ t.leaseDuration = 0 := fun x => h1 (Or.inl x)
+    have b : ¬ t.leaseDuration = bid.leaseDuration := fun x => h1 (Or.inr x)
+    simp [a, b] at h
 
 /-- Inside the int64 range the wrap-around is the identity: the offered capacity is exactly the bid's
 minimum match (in units) times the base supply unit. -/
@@ -371,7 +397,9 @@ def exOffered : Ticket :=
     order := none }
 
 def exNonce : Bytes := List.replicate 31 0 ++ [5]
-def exBid : BidTerms := { auctionType := 0, amt := 500000, minUnitsMatch := 5, nonce := exNonce }
+def exBid : BidTerms :=
+  { auctionType := 0, amt := 500000, minUnitsMatch := 5, nonce := exNonce, leaseDuration := 2016,
+    selfChanBalance := 1000, unannounced := true, zeroConf := false }
 
 def exSigned : Ticket := match signOffer id (some exOffered) 7 with
   | .ok t => t
